@@ -45,6 +45,7 @@ type VirtualMachine struct {
 	globals      map[string]object.Object
 	loadedCode   map[*compiler.Code]*code
 	running      bool
+	stopped      chan struct{} // closed when the current run ends
 	concAllowed  bool
 	runMutex     sync.Mutex
 	cloneMutex   sync.Mutex
@@ -134,9 +135,22 @@ func (vm *VirtualMachine) start(ctx context.Context) error {
 	}
 	if doneChan := ctx.Done(); doneChan != nil {
 		armedFor := vm.startCount
+		stopped := make(chan struct{})
+		vm.stopped = stopped
 		go func() {
-			<-doneChan
-			atomic.StoreInt32(&vm.halt, 1)
+			select {
+			case <-doneChan:
+			case <-stopped:
+				// The run this goroutine was started for is over
+				return
+			}
+			// Only halt the run this goroutine was started for. The VM may
+			// have finished it and be running something else by now.
+			vm.runMutex.Lock()
+			if vm.running && vm.startCount == armedFor {
+				atomic.StoreInt32(&vm.halt, 1)
+			}
+			vm.runMutex.Unlock()
 			if verifOn && VerifEvent != nil {
 				VerifEvent("fire", vm, armedFor, nil)
 			}
@@ -149,6 +163,10 @@ func (vm *VirtualMachine) stop() {
 	vm.runMutex.Lock()
 	defer vm.runMutex.Unlock()
 	vm.running = false
+	if vm.stopped != nil {
+		close(vm.stopped)
+		vm.stopped = nil
+	}
 	if verifOn && VerifEvent != nil {
 		VerifEvent("stop", vm, vm.startCount, nil)
 	}
